@@ -357,6 +357,19 @@ static FILE *open_file(char *path) {
   return out;
 }
 
+// Flush and close an output stream opened by open_file(). A failed
+// write is an error: do not pretend that the output was produced.
+static void close_file(FILE *out, char *path) {
+  bool failed = ferror(out);
+  if (out == stdout)
+    failed |= (fflush(out) != 0);
+  else
+    failed |= (fclose(out) != 0);
+  if (failed)
+    error("cannot write output file: %s: %s",
+          (path && strcmp(path, "-")) ? path : "<stdout>", strerror(errno));
+}
+
 static bool endswith(char *p, char *q) {
   int len1 = strlen(p);
   int len2 = strlen(q);
@@ -443,6 +456,7 @@ static void print_tokens(Token *tok) {
     line++;
   }
   fprintf(out, "\n");
+  close_file(out, opt_o);
 }
 
 static bool in_std_include_path(char *path) {
@@ -492,6 +506,8 @@ static void print_dependencies(void) {
       fprintf(out, "%s:\n\n", quote_makefile(files[i]->name));
     }
   }
+
+  close_file(out, path);
 }
 
 static Token *must_tokenize_file(char *path) {
@@ -564,7 +580,7 @@ static void cc1(void) {
   // Write the asembly text to a file.
   FILE *out = open_file(output_file);
   fwrite(buf, buflen, 1, out);
-  fclose(out);
+  close_file(out, output_file);
 }
 
 static void assemble(char *input, char *output) {
